@@ -13,7 +13,9 @@ def derived_hashseed(seed):
 def plan_shards(tier, seed, n_quick, n_thorough, budget_quick, budget_thorough, shards_quick=16, shards_thorough=32,
                 ties=False, pops=False):
     """Standard shard plan: every shard gets its own hash seed / schedule policy / case stream."""
-    ns = shards_quick if tier == "quick" else shards_thorough
+    import os
+
+    ns = shards_quick if tier == "quick" else int(os.environ.get("RV_SHARDS_THOROUGH", shards_thorough))
     hs_pool = HASHSEEDS_QUICK if tier == "quick" else list(range(0, 15))
     hs_pool = hs_pool + [derived_hashseed(seed)]
     specs = []
